@@ -124,7 +124,29 @@ if the_expression.embed_expression('PanelLikelihoodTrajectory'):
     mc = prog.find_class('MonteCarlo', 'expressions').methods['audit']
     ok = has(mc.node, "if database.is_panel() and (not self.child.embed_expression('PanelLikelihoodTrajectory')):\n    _M = __MSG\n    _E.append(_M)")
     ctx.add('C09.R4', 'MonteCarlo.audit:panel', ok, mc, 'on panel data the Monte-Carlo argument must contain a trajectory operator (same draws for all rows of an individual)' if ok else 'MonteCarlo.audit no longer requires a trajectory on panel data', 'mc')
+    # the engine multiplies over the rows of an individual what the trajectory operator wraps: its record and operand plumbing
+    from . import c01
+
+    sub1 = Ctx(prog, ctx.prop, ctx.tier)
+    c01.run(sub1)
+    got = 0
+    for o in sub1.obligations:
+        if o.construct in ('PanelLikelihoodTrajectory:record', 'PanelLikelihoodTrajectory.__init__(child)'):
+            got += 1
+            ctx.add('C09.R4', o.construct, o.ok, (o.file, o.line), o.message, o.detail)
+    ctx.need(got == 2, 'record and constructor obligations of PanelLikelihoodTrajectory')
     ctx.floor('C09.R4', 10)
+    # a resampled individual map handed to an engine is replaced by the map of the data before the entry point returns
+    from .c04 import restore_rule
+
+    sub2 = Ctx(prog, ctx.prop, ctx.tier)
+    restore_rule(sub2, 'C09.R2')
+    nmap = 0
+    for o in sub2.obligations:
+        if 'setDataMap' in o.construct:
+            nmap += 1
+            ctx.add('C09.R2', o.construct, o.ok, (o.file, o.line), o.message, o.detail)
+    ctx.need(nmap >= 1, 'an entry point hands a resampled individual map to the engine (bootstrap)')
     ctx.floor('C09.R2', 9)
 
 
